@@ -42,6 +42,26 @@ def protocols():
     return _P
 
 
+_TWINS = None
+
+
+def twins():
+    """groups of messages of different interfaces that share name and signature but give an object / new-id argument a
+    different interface (xdg_wm_base.get_xdg_surface / zxdg_shell_v6.get_xdg_surface, wl_data_device.data_offer / ...)"""
+    global _TWINS
+    if _TWINS is None:
+        P = protocols()
+        code = {'int': 'i', 'uint': 'u', 'fixed': 'f', 'string': 's', 'object': 'o', 'new_id': 'n', 'array': 'a', 'fd': 'h'}
+        groups = {}
+        for n, pi in sorted(P.items()):
+            for m in pi.msgs:
+                if any(a.type in ('object', 'new_id') for a in m.args) and all(a.type != 'new_id' or a.interface for a in m.args):
+                    groups.setdefault((m.name, ''.join(code[a.type] for a in m.args)), []).append(
+                        (n, m, tuple(a.interface for a in m.args if a.type in ('object', 'new_id'))))
+        _TWINS = [v for k, v in sorted(groups.items()) if len({x[2] for x in v}) > 1]
+    return _TWINS
+
+
 def winners_map():
     protocols()
     return _W
@@ -315,6 +335,32 @@ class ConnGen:
             self._retype_chain = False
         return m
 
+    def step_twins(self, d):
+        """two interfaces with a same-named, same-signature message whose object / new-id argument differs in interface: both are
+        bound and both messages sent on this connection (one step per call, continued by next())"""
+        P = protocols()
+        plan = getattr(self, '_twin_plan', None)
+        if not plan:
+            g = d.choice(twins())
+            picks = d.perm(g)[:2] if len({x[2] for x in g[:2]}) > 1 or len(g) == 2 else sorted(d.perm(g), key=lambda x: x[2])[:1] + [x for x in g if x[2] != sorted(d.perm(g), key=lambda x: x[2])[0][2]][:1]
+            if len({x[2] for x in picks}) < 2:
+                picks = [g[0]] + [x for x in g if x[2] != g[0][2]][:1]
+            plan = self._twin_plan = [(n, m.name) for n, m, _ in picks]
+        iface, name = plan[0]
+        oid = self.pick_obj(d, iface)
+        if oid is None:
+            return self.step_bind(d, iface=iface)
+        pm = P[iface].msg(name)
+        m = self._protocol_message(d, oid, iface, pm)
+        if m is None:
+            need = [a.interface for a in pm.args if a.type == 'object' and not a.allow_null and a.interface and self.pick_obj(d, a.interface) is None]
+            if need and need[0] in P:
+                return self.step_bind(d, iface=need[0])
+            plan.pop(0)
+            return None
+        plan.pop(0)
+        return m
+
     def step_enum_message(self, d):
         """a message with an enum-typed argument (labels, bitfield unions): dedicated class"""
         protocols()
@@ -554,6 +600,8 @@ class ConnGen:
                 kind = 'title'
             if getattr(self, '_retype_chain', False) and w.get('server_retype') and d.chance(0.6):
                 kind = 'server_retype'
+            if getattr(self, '_twin_plan', None) and w.get('twins') and d.chance(0.6):
+                kind = 'twins'
         m = None
         if kind == 'delete': m = self.step_delete(d)
         elif kind == 'bind': m = self.step_bind(d)
@@ -563,6 +611,7 @@ class ConnGen:
         elif kind == 'title': m = self.step_title(d)
         elif kind == 'retype': m = self.step_retype(d)
         elif kind == 'server_retype': m = self.step_server_retype(d)
+        elif kind == 'twins': m = self.step_twins(d)
         elif kind == 'kinds': m = self.step_kinds(d)
         elif kind == 'newer': m = self.step_newer(d)
         elif kind == 'nulls': m = self.step_nulls(d)
